@@ -288,8 +288,8 @@ fn main() {
         return;
     }
     let mut rng = Rng::new(args.seed);
-    let n_single = args.num("single", 2500, 100000);
-    let n_multi = args.num("multi", 3500, 150000);
+    let n_single = args.num("single", 2500, 60000);
+    let n_multi = args.num("multi", 3500, 100000);
     for _ in 0..n_single {
         let c = gen_case(&mut rng, true);
         emit(&mut out, &c);
